@@ -195,9 +195,9 @@ theorem C08_status_is_den_dyn (inp : RunInput) [NoFailDeliver inp] (s : Sys) (hr
 
 /-- the dynamic denotation is a function of the task table and the oracle (including `calcRes`) only -/
 theorem C08_den_schedule_independent_dyn (inp1 inp2 : RunInput) (h : SameTasks inp1 inp2)
-    (hc : ∀ t, inp1.calcRes t = inp2.calcRes t) (t : Name) (d1 d2 : Den)
-    (h1 : Dyn.DenOf inp1 t d1) (h2 : Dyn.DenOf inp2 t d2) : d1 = d2 :=
-  Dyn.DenOf.functional ((Dyn.DenOf_congr ⟨h, funext hc⟩ t d1).mp h1) h2
+    (hc : ∀ t, inp1.calcRes t = inp2.calcRes t) (hcf : ∀ t, inp1.calcResFail t = inp2.calcResFail t) (t : Name)
+    (d1 d2 : Den) (h1 : Dyn.DenOf inp1 t d1) (h2 : Dyn.DenOf inp2 t d2) : d1 = d2 :=
+  Dyn.DenOf.functional ((Dyn.DenOf_congr ⟨h, funext hc, funext hcf⟩ t d1).mp h1) h2
 
 /-- on graphs without calc_dep the dynamic denotation is the static one: the `NoCalc` theorems above are the special
     case, and `denF` computes `Dyn.DenOf` there -/
@@ -235,7 +235,8 @@ theorem C08_complete_reports_closure_dyn (inp : RunInput) [NoFailDeliver inp] (s
     failed with the same kind; hence the same `save_success` / `remove_success` DB effects), leave the same
     `run_status` on every task both have finished, and return the same exit code. -/
 theorem C08_confluence (inp1 inp2 : RunInput) [NoFailDeliver inp1] [NoFailDeliver inp2] (hsame : SameTasks inp1 inp2)
-    (hcalc : ∀ t, inp1.calcRes t = inp2.calcRes t) (hsel : ∀ t, t ∈ inp1.sel ↔ t ∈ inp2.sel) (s1 s2 : Sys)
+    (hcalc : ∀ t, inp1.calcRes t = inp2.calcRes t) (hcalcF : ∀ t, inp1.calcResFail t = inp2.calcResFail t)
+    (hsel : ∀ t, t ∈ inp1.sel ↔ t ∈ inp2.sel) (s1 s2 : Sys)
     (h1 : Reach inp1 s1 ∨ PReach inp1 s1) (h2 : Reach inp2 s2 ∨ PReach inp2 s2)
     (e1 : s1.rpc = .halted ∧ s1.halt = .none ∧ s1.stop = false)
     (e2 : s2.rpc = .halted ∧ s2.halt = .none ∧ s2.stop = false) :
@@ -243,19 +244,20 @@ theorem C08_confluence (inp1 inp2 : RunInput) [NoFailDeliver inp1] [NoFailDelive
     (∀ t, reportOf (trace inp1 s1) t = reportOf (trace inp2 s2) t) ∧
     (∀ t, (stOf s1 t).finished = true → (stOf s2 t).finished = true → stOf s1 t = stOf s2 t) ∧
     exitCode s1 = exitCode s2 :=
-  have hs : Dyn.SameTasksC inp1 inp2 := ⟨hsame, funext hcalc⟩
+  have hs : Dyn.SameTasksC inp1 inp2 := ⟨hsame, funext hcalc, funext hcalcF⟩
   ⟨Dyn.complete_runs_same_reported hs hsel h1 h2 e1 e2, Dyn.complete_runs_same_reportOf hs hsel h1 h2 e1 e2,
    fun t => Dyn.confluent_status hs h1 h2 t, Dyn.complete_runs_same_exit hs hsel h1 h2 e1 e2⟩
 
 /-- the pair monitor (P) the driver evaluates on a serial and a parallel real run (`monC08Pair`: same report per task,
     same exit code) holds of any two complete runs of the model on ANY graph -/
 theorem C08_pair_monitor_holds (inp1 inp2 : RunInput) [NoFailDeliver inp1] [NoFailDeliver inp2] (hsame : SameTasks inp1 inp2)
-    (hcalc : ∀ t, inp1.calcRes t = inp2.calcRes t) (hsel : ∀ t, t ∈ inp1.sel ↔ t ∈ inp2.sel) (s1 s2 : Sys)
+    (hcalc : ∀ t, inp1.calcRes t = inp2.calcRes t) (hcalcF : ∀ t, inp1.calcResFail t = inp2.calcResFail t)
+    (hsel : ∀ t, t ∈ inp1.sel ↔ t ∈ inp2.sel) (s1 s2 : Sys)
     (h1 : Reach inp1 s1 ∨ PReach inp1 s1) (h2 : Reach inp2 s2 ∨ PReach inp2 s2)
     (e1 : s1.rpc = .halted ∧ s1.halt = .none ∧ s1.stop = false)
     (e2 : s2.rpc = .halted ∧ s2.halt = .none ∧ s2.stop = false) (nTasks : Nat) :
     monC08Pair nTasks (trace inp1 s1) (trace inp2 s2) (exitCode s1) (exitCode s2) = true := by
-  obtain ⟨_, hrep, _, hexit⟩ := C08_confluence inp1 inp2 hsame hcalc hsel s1 s2 h1 h2 e1 e2
+  obtain ⟨_, hrep, _, hexit⟩ := C08_confluence inp1 inp2 hsame hcalc hcalcF hsel s1 s2 h1 h2 e1 e2
   unfold monC08Pair
   simp only [Bool.and_eq_true, List.all_eq_true, List.mem_range, beq_iff_eq]
   exact ⟨fun t _ => hrep t, hexit⟩
@@ -263,12 +265,13 @@ theorem C08_pair_monitor_holds (inp1 inp2 : RunInput) [NoFailDeliver inp1] [NoFa
 /-- confluence, state-wise, any graph: any two reachable states (complete or not) of any two of the transition systems
     over the same task table agree on every task finished in both and on every task reported in both -/
 theorem C08_confluence_status_dyn (inp1 inp2 : RunInput) [NoFailDeliver inp1] [NoFailDeliver inp2] (hsame : SameTasks inp1 inp2)
-    (hcalc : ∀ t, inp1.calcRes t = inp2.calcRes t) (s1 s2 : Sys)
+    (hcalc : ∀ t, inp1.calcRes t = inp2.calcRes t) (hcalcF : ∀ t, inp1.calcResFail t = inp2.calcResFail t)
+    (s1 s2 : Sys)
     (h1 : Reach inp1 s1 ∨ PReach inp1 s1) (h2 : Reach inp2 s2 ∨ PReach inp2 s2) (t : Name) :
     ((stOf s1 t).finished = true → (stOf s2 t).finished = true → stOf s1 t = stOf s2 t) ∧
     (∀ d1 d2, (∃ e ∈ s1.events, Ev.den? t e = some d1) → (∃ e ∈ s2.events, Ev.den? t e = some d2) → d1 = d2) :=
-  ⟨Dyn.confluent_status ⟨hsame, funext hcalc⟩ h1 h2 t,
-   fun d1 d2 r1 r2 => Dyn.confluent_report ⟨hsame, funext hcalc⟩ h1 h2 t d1 d2 r1 r2⟩
+  ⟨Dyn.confluent_status ⟨hsame, funext hcalc, funext hcalcF⟩ h1 h2 t,
+   fun d1 d2 r1 r2 => Dyn.confluent_report ⟨hsame, funext hcalc, funext hcalcF⟩ h1 h2 t d1 d2 r1 r2⟩
 
 /-- the exit code of a complete run of any graph is `exitOfDens` over the derived outcomes of the closure, however the
     closure is enumerated and the outcomes are computed -/
